@@ -83,6 +83,8 @@ class WorldGen:
         k = {}
         k["nthreads"] = r.choice((1, 2, 2, 3, 3, 4)) if self.tier == "quick" else r.choice((1, 2, 2, 3, 3, 4, 4, 6))
         k["nops"] = r.choice((3, 5, 8, 12, 18, 25))
+        if self.tier == "thorough" and r.random() < 0.01:
+            k["nthreads"], k["nops"] = 16, r.choice((2, 3, 4))   # many callers, short programs
         k["backends"] = {b: (r.random() < 0.75) for b in ("obj", "np", "ak", "sym")}
         if not any(k["backends"][b] for b in ("obj", "np", "ak")):
             k["backends"][r.choice(("obj", "np", "ak"))] = True
